@@ -449,8 +449,15 @@ def search_terms(case, out):
     return terms
 
 
-def spec_cost(case, n):
-    return (case["V"] + 1) ** _len_of(case, n)
+def spec_cost(case, n, bits=0):
+    """number of alignments the spec enumerates, weighted by the size of the rationals: a probability such as
+    exp(-600) (extreme-magnitude stream) is an exact rational with a ~900-bit denominator, and products of those
+    over the frames make the enumeration an order of magnitude slower; O(1) logits give < 128 bits (weight 1)"""
+    return (case["V"] + 1) ** _len_of(case, n) * max(1, bits // 128)
+
+
+def _den_bits(xs):
+    return max([fr_(x).denominator.bit_length() for x in xs if x not in (NEG, "nan", "+inf")] + [0])
 
 
 def spec_terms(case, out, limit=None):
@@ -459,14 +466,17 @@ def spec_terms(case, out, limit=None):
         return [None]
     probs = _probs_of(case)
     fus, lmt = _fus_lm_terms(case)
+    lm_bits = _den_bits([v for r in lm_rows(case) for v in r]) if lmt != "no_lm" else 0
     terms = []
     for n, e in enumerate(out["elems"]):
         if _elem_bad(e):
             terms.append("false")
             continue
-        if limit is not None and spec_cost(case, n) > limit:
-            terms.append(None)
-            continue
+        if limit is not None:
+            bits = max(lm_bits, _den_bits([float(v) for v in probs[:_len_of(case, n), n, :].flatten()]))
+            if spec_cost(case, n, bits) > limit:
+                terms.append(None)
+                continue
         ln = _len_of(case, n)
         frames = _frames_term(probs, n, ln, case["V"])
         outl = cl([f"({cln(c)}, {cmass(p)})" for c, p in zip(e["y"], e["probs"])])
@@ -593,7 +603,7 @@ def gen_search(rng, big=False):
     return case
 
 
-def _xrow(rng, n, f32, lm=False):
+def _xrow(rng, n, f32, lm=False, snap=True):
     """one row of n extreme-magnitude logits: O(1) values scaled by 100..1000, and/or a common offset of
     +-100..1000 (exp alone overflows beyond 88.7 in float32 / 709.8 in float64 and underflows to 0 below
     -104 / -745), and/or one logit dominating by hundreds of nats (the softmax of the others underflows to
@@ -611,6 +621,12 @@ def _xrow(rng, n, f32, lm=False):
         big = rng.random() < 0.7
         off = rng.choice([-1, 1]) * (rng.randint(720, 1000) if big else rng.randint(100, 720))
         row = [round(v + off, 3) for v in row]
+    if snap and not f32:
+        # float64: an entry 30..800 nats below the row's maximum has a probability like exp(-600), an exact
+        # rational with a ~900-bit denominator (slow in Coq); most cases push such entries beyond 800 nats, where
+        # the softmax underflows to exactly 0 (float32 keeps every gap: its smallest positive value is 2^-149)
+        m = max(row)
+        row = [round(m - 800 - (m - v) % 400, 3) if 30 < m - v < 800 else v for v in row]
     return row
 
 
@@ -630,6 +646,7 @@ def gen_search_extreme(rng):
         if case["lens"] is not None:
             case["lens"] = [min(l, T) for l in case["lens"]]
         f32 = rng.random() < 0.5
+        snap = rng.random() < 0.85
         case["dtype"] = "float32" if f32 else "float64"
         case["width"] = min(case["width"], 8)
         which = rng.choice(["acoustic", "lm", "both"]) if case["fusion"] != "none" else "acoustic"
@@ -639,7 +656,7 @@ def gen_search_extreme(rng):
             for _ in range(T):
                 per_n = []
                 for _ in range(N):
-                    r = _xrow(rng, V + 1, f32)
+                    r = _xrow(rng, V + 1, f32, snap=snap)
                     r = [(-math.inf if rng.random() < pinf else v) for v in r]
                     if all(v == -math.inf for v in r):
                         r[rng.randrange(V + 1)] = float(rng.choice([-900, 0, 900]))
@@ -651,8 +668,19 @@ def gen_search_extreme(rng):
         if which in ("lm", "both"):
             lm = case["lm"]
             lm["raw"] = True
-            lm["table"] = [_xrow(rng, V, f32, lm=True) for _ in range(lm["M"])]
-            case["beta"] = rng.choice([0.005, 0.01, 0.02, 0.05, 0.25, 1.0])
+            lm["table"] = [_xrow(rng, V, f32, lm=True, snap=snap) for _ in range(lm["M"])]
+            # beta * gap stays O(1..50) nats (or beta = 1: exactly 0 beyond the underflow point)
+            case["beta"] = rng.choice([0.005, 0.01, 0.02, 0.05, 0.25 if f32 else 0.03, 1.0])
+        if not f32 and T > 2:
+            # float64 probabilities like exp(-600) are exact rationals with ~900-bit denominators; their products
+            # over three or more frames make the Coq terms slow, so such cases keep two frames
+            bits = _den_bits([float(v) for v in _probs_of(case).flatten()])
+            if case["fusion"] != "none" and case["beta"]:
+                bits = max(bits, _den_bits([v for r in lm_rows(case) for v in r]))
+            if bits > 256:
+                case["T"], case["logits"] = 2, case["logits"][:2]
+                if case["lens"] is not None:
+                    case["lens"] = [min(l, 2) for l in case["lens"]]
         return case
 
 
